@@ -195,6 +195,7 @@ def markets(tier, seed):
     pool_model = gens_markets.from_pool_model(vlib.tlc_generate_raw("MCPools", "gen/MCPoolsGen.cfg", big=True))
     return (sample(rnd, pool_model, {"quick": 150, "thorough": 0}[tier]) + gens_markets.markets(rnd, {"quick": 80, "thorough": 3000}[tier]) + gens_orders.orderbooks(rnd, {"quick": 60, "thorough": 2000}[tier])
             + gens_markets.fee_on_route(rnd, {"quick": 40, "thorough": 1000}[tier])
+            + gens_markets.gas_tokens(rnd, {"quick": 40, "thorough": 800}[tier])
             + regress("markets"))
 
 
